@@ -80,6 +80,19 @@ def run(tier, replay=None):
     ev2, n2 = grouped(log2)
     c.cov["registries_in_the_harness_run"] = n2
     validate(c, ev2, "harness")
-    c.cov["rule"] = "the pinned test suite and the doc tests of /repo's current tree, built with --cfg scale_info_verif, every Registry they create logged by the hooks (enter / exit of register_type, ids listed on conversion) and validated by TLC against RegHooks; the same for seeded random registration histories of the harness; RegHooks itself model-checked over 3 identities, nesting <= 4"
+    # 3. programs over REAL built-in types (the type-expression corpus of C04/C05: every constructor, aliases, markers,
+    #    the unit type first, chains nested 70 / 100 deep), linked against the hooked library
+    from checks import texprcommon as T
+    log3 = os.path.join(wd, "texpr_hooks.ndjson")
+    if os.path.exists(log3): os.unlink(log3)
+    cases = T.corpus(c, tier == "thorough", False)
+    try:
+        T.observe(c, cases, 70, 1, limit=None if tier == "thorough" else 12, hooks_log=log3)
+    finally:
+        os.environ.pop("SCALE_INFO_VERIF_TRACE", None)
+    ev3, n3 = grouped(log3)
+    c.cov["registries_in_the_type_expression_programs"] = n3
+    validate(c, ev3, "texpr")
+    c.cov["rule"] = "the pinned test suite and the doc tests of /repo's current tree, built with --cfg scale_info_verif, every Registry they create logged by the hooks (enter / exit of register_type, ids listed on conversion) and validated by TLC against RegHooks; the same for seeded random registration histories of the harness and for programs over the built-in type-expression corpus (real types, deep nesting, every registry they build incl. one per valued type alone); RegHooks itself model-checked over 3 identities, nesting <= 4"
     c.assumptions += ["events of one registry are totally ordered by the sink's mutex (a Registry is only used through &mut self)", "grouping the log by (process, registry tag) loses nothing: registries are independent objects"]
     return c.finish()
